@@ -894,6 +894,11 @@ class DBusObjectHandler :
                     errMsg = ('!!(Invalid error name "%s")!! ' % name) + errMsg
                     name = 'org.txdbus.InvalidErrorName'
 
+                # the text must be a valid DBus string or no reply is sent:
+                # no embedded nul, encodable as UTF-8
+                errMsg = errMsg.replace('\0', '\\0').encode(
+                    'utf-8', 'backslashreplace').decode('utf-8')
+
                 r = message.ErrorMessage(name, msg.serial,
                                          body=[errMsg],
                                          signature='s',
